@@ -208,7 +208,8 @@ class ImplStore:
             if regs is not None:
                 regs = [(to_float(a), to_float(b)) for a, b in regs]
                 if kw.get("bare_pair"):
-                    regs = regs[0]
+                    # one bare (lo, hi) pair, in any of the containers a caller may write it in
+                    regs = {"list": list, "array": np.array}.get(kw["bare_pair"], tuple)(regs[0])
             return dnp.integrate(d, kw["dim"], regs)
         if f == "cumulative_integrate":
             return dnp.cumulative_integrate(d, kw["dim"])
